@@ -23,7 +23,7 @@ package hack
 //@   assigns nothing
 
 //@ func (*HijackClientHelloConn).hasCompleteClientHello
-//@   props C04,C10,C01,C02
+//@   props C04,C10,C01,C02,C16
 //@   requires c != nil && c.expectedLen >= 0
 //@   assigns c.buf.view
 //@   ensures [C04,C01,C02:complete-iff] result <==> (c.expectedLen != 0 && len(old(c.buf.view)) != 0 && len(old(c.buf.view)) >= c.expectedLen)
@@ -31,7 +31,7 @@ package hack
 //@   ensures [C04,C01,C02:untouched-when-incomplete] !result ==> c.buf.view == old(c.buf.view)
 
 //@ func (*HijackClientHelloConn).tryParseClientHello
-//@   props C04,C10,C01,C02
+//@   props C04,C10,C01,C02,C16
 //@   requires c != nil && winv(c)
 //@   assigns c.buf.view, c.expectedLen
 //@   ensures [C04,C01,C02:inv] inv(c)
@@ -42,7 +42,7 @@ package hack
 //@   inline
 
 //@ func (*HijackClientHelloConn).GetClientHello :: c -> rec, err
-//@   props C04,C10,C01,C02
+//@   props C04,C10,C01,C02,C16
 //@   requires c != nil && inv(c)
 //@   assigns c.buf.view, c.expectedLen
 //@   ensures [C04,C01,C02:inv] inv(c)
@@ -51,7 +51,7 @@ package hack
 //@   ensures [C04,C01,C02:nothing-on-error] err != nil ==> len(rec) == 0
 
 //@ func (*HijackClientHelloConn).Read :: c, b -> n, err
-//@   props C04,C10,C01,C02
+//@   props C04,C10,C01,C02,C16
 //@   requires c != nil && inv(c)
 //@   assigns post(b), delivered(c.tlsConn), c.buf.view, c.expectedLen
 //@   ensures [C04,C01,C02:inv] inv(c)
